@@ -13,6 +13,7 @@ Clauses(e) ==
   CASE e.op = "import"     -> Corr(e.mode, e.raw, {}, e.tree, NONE, Rng(e.lits))
     [] e.op = "export"     -> IF ~e.wf THEN {"ill-formed-output"} ELSE Corr("export", e.raw, {}, e.tree, NONE, {})
     [] e.op = "export_eml" -> IF ~e.wf THEN {"ill-formed-output"} ELSE CorrEml(e.raw, e.tree, TRUE)
+    [] e.op = "import_legacy" -> CorrLegacy(e.raw, e.tree)
     [] e.op = "same"       -> IF SameUpToWs(e.t1, e.t2) THEN {} ELSE {"trees-differ"}
 
 Judge(k) == LET c == Clauses(Events[k]) IN
